@@ -5,6 +5,8 @@ ASSUMPTIONS = [
     "fault kinds injected: exception before / after writing products, omitted product, deleted input (missing dependency); "
     "failing load/save of custom nodes is exercised by the C08 campaign",
     "after-targets always have products in this campaign (finding F1 is scoped to C01)",
+    "tasks carry skipif(False), try_first / try_last and user markers at random: marks that must be irrelevant to containment "
+    "(skipif(False) is no flag in the model, try_first / try_last are the model's priorities)",
     "observed schedule replayed in the Lean engine; theorems hold for every legal schedule",
     "stream 'generator' (task generators with products / dependants / after-links, failing, under failure limits): the static engine "
     "model M6 has no generators, so this stream is checked by the implementation-only oracle (contain, limit, exit) without model replay",
@@ -69,7 +71,9 @@ def histories(ctx):
     rng = ctx.rng
     hs = []
     for i in range(ctx.scale(110, 1200)):
-        spec = engine.gen_spec(rng, nt=(2, 7), after_p=0.25, after_needs_prods=True, behs=("ok", "ok", "ok", "early", "late", "omit"))
+        # markers that must be irrelevant to containment: skipif(False), try_first / try_last, user markers
+        spec = engine.gen_spec(rng, nt=(2, 7), after_p=0.25, after_needs_prods=True, behs=("ok", "ok", "ok", "early", "late", "omit"),
+                               marks=(("skipif_false", 0.3), ("try_first", 0.12), ("try_last", 0.12)), user_markers=True)
         cfg = {"maxfail": rng.choice([None, None, 1, 2, 3])}
         if rng.random() < 0.25:
             cfg["force"] = True
@@ -96,9 +100,10 @@ def generator_histories(ctx):
     implementation-only oracle (contain / limit / exit)."""
     rng = ctx.rng
     hs = []
-    for i in range(ctx.scale(36, 400)):
+    for i in range(ctx.scale(28, 400)):
         spec = engine.gen_spec(rng, nt=(3, 7), after_p=0.3, after_needs_prods=True, prodless_p=0.05, dens=0.8,
-                               behs=("ok", "ok", "ok", "early", "late"), styles=("default", "annotated", "kwargs"))
+                               behs=("ok", "ok", "ok", "early", "late"), styles=("default", "annotated", "kwargs"),
+                               marks=(("skipif_false", 0.25), ("try_first", 0.1), ("try_last", 0.1)), user_markers=True)
         consumed = {d for t in spec["tasks"] for d in t["deps"]} | {p for t in spec["tasks"] for a in t.get("after", [])
                                                                     for u in spec["tasks"] if u["id"] == a for p in u["prods"]}
         with_dependants = [t for t in spec["tasks"] if set(t["prods"]) & consumed]
